@@ -7,6 +7,8 @@
 #![allow(dead_code)]
 
 mod core;
+mod faultio;
+mod inputs;
 mod model;
 mod prng;
 mod report;
@@ -41,6 +43,8 @@ pub trait Simulator: Sync {
 fn simulators_for(property: &str, thorough: bool) -> Vec<Box<dyn Simulator>> {
     match property {
         "C13" | "C19" | "C02" => vec![Box::new(sims::envsim_driver::EnvSimDriver::new(property, thorough))],
+        "C12" => vec![Box::new(sims::iosim_driver::IoSimDriver::new(property))],
+        "C10" => vec![Box::new(sims::iosim_driver::IoSimDriver::new(property))],
         _ => vec![],
     }
 }
